@@ -24,16 +24,16 @@ theorem foldl_dispatchOneX_completed (sp : Spec) (r : Bool) (cs : List Cmd) :
     exact ih w h
 
 /-- `_process_commands` in a completed workflow: nothing -/
-theorem processX_completed (sp : Spec) (r : Bool) (w : World) (cmds : List Cmd) (h : isCompleted w.wf = true) :
-    processX sp r w cmds = w := foldl_dispatchOneX_completed sp r _ w h
+theorem processX_completed (srt : Sorter) (sp : Spec) (r : Bool) (w : World) (cmds : List Cmd) (h : isCompleted w.wf = true) :
+    processX srt sp r w cmds = w := foldl_dispatchOneX_completed sp r _ w h
 
 /-- `dispatch_workflow_commands` in a completed workflow: the backlog is polled (popped) and DROPPED,
     the new commands are not processed -/
-theorem dispatchX_completed (sp : Spec) (w : World) (cmds : List Cmd) (h : isCompleted w.wf = true) :
-    dispatchX sp w cmds = { w with backlog := [] } := by
+theorem dispatchX_completed (srt : Sorter) (sp : Spec) (w : World) (cmds : List Cmd) (h : isCompleted w.wf = true) :
+    dispatchX srt sp w cmds = { w with backlog := [] } := by
   unfold dispatchX
-  rw [processX_completed sp true { w with backlog := [] } w.backlog h]
-  exact processX_completed sp false { w with backlog := [] } cmds h
+  rw [processX_completed srt sp true { w with backlog := [] } w.backlog h]
+  exact processX_completed srt sp false { w with backlog := [] } cmds h
 
 /-! ### the dispatcher in a PAUSED workflow -/
 
@@ -74,14 +74,12 @@ theorem dispatchOneX_task_running (sp : Spec) (r : Bool) (w : World) (c : Cmd) (
   have h1 : isCompleted w.wf = false := by rw [hw]; decide
   have h2 : (w.wf == St.PAUSED) = false := by rw [hw]; decide
   simp only [dispatchOneX, h1, h2, hc, Bool.false_eq_true, if_false]
-  cases r with
-  | true => exact ⟨hw, rfl⟩
-  | false =>
-    simp only [Bool.false_eq_true, if_false]
-    split
-    · exact ⟨hw, rfl⟩
-    · rw [(dispatchTask_frame sp w c).1, (dispatchTask_frame sp w c).2]
-      exact ⟨hw, rfl⟩
+  split
+  · cases r with
+    | true => exact ⟨hw, rfl⟩
+    | false => exact ⟨hw, rfl⟩
+  · rw [(dispatchTask_frame sp w c).1, (dispatchTask_frame sp w c).2]
+    exact ⟨hw, rfl⟩
 
 theorem foldl_tasks_running (sp : Spec) (r : Bool) (cs : List Cmd) :
     ∀ (w : World), w.wf = .RUNNING → (∀ c ∈ cs, cmdKind c.target = .task) →
@@ -202,16 +200,16 @@ theorem filter_noop_tasks (cs : List Cmd) (h : ∀ c ∈ cs, cmdKind c.target = 
   rw [h c hc]; decide
 
 /-- a list of task commands is only sorted -/
-theorem rearrange_tasks (waiting : Cmd → Bool) (cs : List Cmd) (h : ∀ c ∈ cs, cmdKind c.target = .task) :
-    rearrange waiting cs = pySort (cmdLT waiting) cs := by
+theorem rearrange_tasks (srt : List Cmd → List Cmd) (cs : List Cmd) (h : ∀ c ∈ cs, cmdKind c.target = .task) :
+    rearrange srt cs = srt cs := by
   unfold rearrange
   simp only [filter_noop_tasks cs h, splitState_tasks cs h]
 
 /-- task commands, then `pause`, then a tail: the task commands sorted, `pause`, the tail without its noops -/
-theorem rearrange_tasks_pause (waiting : Cmd → Bool) (pre : List Cmd) (p : Cmd) (rest : List Cmd)
+theorem rearrange_tasks_pause (srt : List Cmd → List Cmd) (pre : List Cmd) (p : Cmd) (rest : List Cmd)
     (hpre : ∀ c ∈ pre, cmdKind c.target = .task) (hp : cmdKind p.target = .pause) :
-    rearrange waiting (pre ++ p :: rest) =
-      pySort (cmdLT waiting) pre ++ p :: rest.filter (fun c => cmdKind c.target != .noop) := by
+    rearrange srt (pre ++ p :: rest) =
+      srt pre ++ p :: rest.filter (fun c => cmdKind c.target != .noop) := by
   unfold rearrange
   have hf : (pre ++ p :: rest).filter (fun c => cmdKind c.target != .noop) =
       pre ++ p :: rest.filter (fun c => cmdKind c.target != .noop) := by
@@ -219,5 +217,9 @@ theorem rearrange_tasks_pause (waiting : Cmd → Bool) (pre : List Cmd) (p : Cmd
     simp [hp]
   simp only [hf, splitState_tasks_state pre p _ hpre (by rw [hp]; exact ⟨by decide, by decide⟩), hp]
   rfl
+
+theorem pySorter_apply (f : Cmd → Bool) (l : List Cmd) : pySorter f l = pySort (cmdLT f) l := rfl
+
+theorem idSorter_apply (f : Cmd → Bool) (l : List Cmd) : idSorter f l = l := rfl
 
 end Mistral.Engine
